@@ -5,7 +5,7 @@ import (
 	"fmt"
 	"math/rand"
 
-	"verif/harness/internal/core"
+	"gonum.org/v1/gonum/verifharness/internal/core"
 )
 
 // events written for StructuralTrace.tla (every field always present, [] never null)
